@@ -27,6 +27,7 @@ static char *opt_o;
 
 static StringArray ld_extra_args;
 static StringArray std_include_paths;
+static StringArray idirafter;
 
 char *base_file;
 static char *output_file;
@@ -63,6 +64,10 @@ static void add_default_include_paths(char *argv0) {
   // Keep a copy of the standard include paths for -MMD option.
   for (int i = 0; i < include_paths.len; i++)
     strarray_push(&std_include_paths, include_paths.data[i]);
+
+  // -idirafter directories are searched after the standard ones.
+  for (int i = 0; i < idirafter.len; i++)
+    strarray_push(&include_paths, idirafter.data[i]);
 }
 
 static void define(char *str) {
@@ -119,8 +124,6 @@ static void parse_args(int argc, char **argv) {
       if (!argv[++i])
         usage(1);
 
-  StringArray idirafter = {};
-
   for (int i = 1; i < argc; i++) {
     if (!strcmp(argv[i], "-###")) {
       opt_hash_hash_hash = true;
@@ -167,6 +170,11 @@ static void parse_args(int argc, char **argv) {
 
     if (!strcmp(argv[i], "-E")) {
       opt_E = true;
+      continue;
+    }
+
+    if (!strcmp(argv[i], "-I")) {
+      strarray_push(&include_paths, argv[++i]);
       continue;
     }
 
@@ -282,7 +290,7 @@ static void parse_args(int argc, char **argv) {
     }
 
     if (!strcmp(argv[i], "-idirafter")) {
-      strarray_push(&idirafter, argv[i++]);
+      strarray_push(&idirafter, argv[++i]);
       continue;
     }
 
@@ -335,9 +343,6 @@ static void parse_args(int argc, char **argv) {
 
     strarray_push(&input_paths, argv[i]);
   }
-
-  for (int i = 0; i < idirafter.len; i++)
-    strarray_push(&include_paths, idirafter.data[i]);
 
   if (input_paths.len == 0)
     error("no input files");
